@@ -157,13 +157,26 @@ class OpsMixin:
         e = self.coerce(e, s.ty.args[0])
         return z3.Select(s.t, e.t)
 
+    def _is_lambda(self, t):
+        return z3.is_quantifier(t) or not z3.is_array(t)
+
+    def _pointwise(self, a: Val, b: Val, fn) -> Val:
+        x = z3.Const(f"bvset_{self.reg.sort(a.ty.args[0])}", self.reg.sort(a.ty.args[0]))
+        return Val(a.ty, z3.Lambda([x], fn(z3.Select(a.t, x), z3.Select(b.t, x))))
+
     def set_union(self, a: Val, b: Val) -> Val:
+        if self._is_lambda(a.t) or self._is_lambda(b.t):
+            return self._pointwise(a, b, lambda p, q: z3.Or(p, q))
         return Val(a.ty, z3.Map(self._f_or, a.t, b.t))
 
     def set_inter(self, a, b):
+        if self._is_lambda(a.t) or self._is_lambda(b.t):
+            return self._pointwise(a, b, lambda p, q: z3.And(p, q))
         return Val(a.ty, z3.Map(self._f_and, a.t, b.t))
 
     def set_diff(self, a, b):
+        if self._is_lambda(a.t) or self._is_lambda(b.t):
+            return self._pointwise(a, b, lambda p, q: z3.And(p, z3.Not(q)))
         return Val(a.ty, z3.Map(self._f_and, a.t, z3.Map(self._f_not, b.t)))
 
     def set_subset(self, a, b):
